@@ -1,13 +1,10 @@
-//! One module per property. Each exposes `check(ctx) -> Vec<PartReport>`, `replay(ctx, part, case)`
-//! and optionally `probes(ctx)` (directed probes for listed known findings).
+//! One module per property. Each exposes `info()`, `check(ctx) -> Vec<PartReport>`,
+//! `replay(ctx, part, case)` and optionally `probes(ctx)` (directed probes for listed known
+//! findings).
 
 use crate::engine::{Ctx, Outcome, PartReport};
 use serde::Serialize;
 use serde_json::Value;
-
-pub mod c11;
-
-pub const ALL: &[&str] = &["C11"];
 
 pub struct Info {
     pub level: &'static str,
@@ -22,35 +19,35 @@ pub struct Probe {
     pub detail: String,
 }
 
-pub fn info(id: &str) -> Option<Info> {
-    Some(match id {
-        "C11" => c11::info(),
-        _ => return None,
-    })
+macro_rules! properties {
+    ($( $id:literal => $m:ident ),* $(,)?) => {
+        $( pub mod $m; )*
+        pub const ALL: &[&str] = &[$($id),*];
+        pub fn info(id: &str) -> Option<Info> {
+            match id { $( $id => Some($m::info()), )* _ => None }
+        }
+        pub fn check(ctx: &Ctx, id: &str) -> Vec<PartReport> {
+            match id { $( $id => $m::check(ctx), )* _ => vec![] }
+        }
+        pub fn replay(ctx: &Ctx, id: &str, part: &str, case: &Value) -> Outcome {
+            match id {
+                $( $id => $m::replay(ctx, part, case), )*
+                _ => { let mut o = Outcome::new(); o.inconclusive = 1; o }
+            }
+        }
+    };
 }
 
-pub fn check(ctx: &Ctx, id: &str) -> Vec<PartReport> {
-    match id {
-        "C11" => c11::check(ctx),
-        _ => vec![],
-    }
+properties! {
+    "C01" => c01,
+    "C02" => c02,
+    "C11" => c11,
 }
 
 pub fn probes(ctx: &Ctx, id: &str) -> Vec<Probe> {
     let _ = ctx;
     match id {
         _ => vec![],
-    }
-}
-
-pub fn replay(ctx: &Ctx, id: &str, part: &str, case: &Value) -> Outcome {
-    match id {
-        "C11" => c11::replay(ctx, part, case),
-        _ => {
-            let mut o = Outcome::new();
-            o.inconclusive = 1;
-            o
-        }
     }
 }
 
